@@ -53,6 +53,34 @@ pub fn giant(kind: u64) -> (Sprite, &'static str) {
             sp.ext_files.retain(|f| seen.insert(f.id));
             (sp, "300-of-everything")
         }
+        6 => {
+            // more than 65535 of everything the format counts in 32 bits
+            let n = 70_000u32;
+            let mut sp = Sprite::blank(3, 3, Fmt::Indexed, 2);
+            sp.transparent_index = 0;
+            let mut pal = std::collections::BTreeMap::new();
+            for i in 0..n {
+                pal.insert(i, PalEntryM { rgba: [i as u8, (i >> 8) as u8, (i >> 16) as u8, 255 - (i % 3) as u8], name: if i % 10_000 == 9_999 || i == n - 1 { Some(format!("c{}", i)) } else { None } });
+            }
+            sp.palette = Some(pal);
+            sp.layers.push(LayerM::image("base"));
+            for i in 0..n {
+                let nk = if i == n - 1 { n as usize } else if i % 20_000 == 0 { 2 } else { 0 };
+                sp.slices.push(SliceM {
+                    name: if i % 30_000 == 5 { format!("s{}", i) } else { String::new() },
+                    flags: 0,
+                    keys: (0..nk).map(|k| SliceKeyM { frame: k as u32, x: k as i32 - 5, y: -(k as i32), w: 1 + k as u32 % 9, h: 2, center: None, pivot: None }).collect(),
+                    ud: if i % 25_000 == 1 || i == n - 1 { Some(UserDataM { text: Some(format!("ud{}", i)), color: None }) } else { None },
+                });
+                sp.ext_files.push(ExtFileM { id: ((1 + i as u64 * 61_357_001) % 4_294_967_291) as u32, name: if i % 10_000 == 3 { format!("f{}", i) } else { String::new() } });
+            }
+            let mut seen = std::collections::HashSet::new();
+            sp.ext_files.retain(|f| seen.insert(f.id));
+            for i in 0..n {
+                sp.tilesets.push(TilesetM { id: if i < n - 5 { i } else { 0xfffe_0000 + i }, flags: TS_EMBED | TS_ZERO_EMPTY, count: 1, tw: 1, th: 1, base_index: 1, name: String::new(), ext: None, pixels: vec![0] });
+            }
+            (sp, "70000-of-everything")
+        }
         5 => {
             // more layers than 16 bits can number, with groups (one hidden) and nested children beyond index 65535
             let mut sp = Sprite::blank(2, 2, Fmt::Rgba, 2);
@@ -151,7 +179,7 @@ pub fn giant_files() -> Vec<(String, Vec<u8>)> {
     let mut rng = crate::rng::Rng::new(7);
     let mut v = crate::program::Variation::none();
     v.default_storage = Storage::Raw;
-    for k in [0u64, 1, 3, 4, 5, 99] {
+    for k in [0u64, 1, 3, 4, 5, 6, 99] {
         let (sp, name) = giant(k);
         let bytes = crate::encode::encode(&crate::program::compile(&sp, &mut rng, &v)).0;
         out.push((format!("giant:{}", name), bytes));
